@@ -126,6 +126,31 @@ def witness_fixed_stale_entry(base):
         shutil.rmtree(sim.base, ignore_errors=True)
 
 
+def scenario_reset_shift(args):
+    """pending AI lines, a person types above them with no checkpoint, reset --soft/--mixed, commit:
+    the person's lines must not be credited to the session"""
+    base, seed, idx, opts = args
+    r = C.Rng(seed).fork(f"c03-rs-{idx}")
+    sim = Sim(base, f"rs{idx}")
+    w = World(sim, r)
+    try:
+        files = {n: "".join(w.fresh("H") + "\n" for _ in range(r.range(3, 6))) for n in ("a.txt", "b.txt")}
+        sim.init(files)
+        w.op_edit(actor="H", path="b.txt")
+        w.op_commit()
+        f = r.pick(["a.txt", "b.txt"])
+        w.op_edit(actor=r.pick(SESSIONS), path=f, region=r.pick(["bottom", None]), kinds=("ins",))
+        for _ in range(r.range(1, 2)):
+            w.op_edit(actor="H", path=f, region=r.pick(["top", None]), kinds=("ins", "rep"))
+        w.git("reset", r.pick(["--soft", "--mixed"]), "HEAD~1")
+        w.op_commit("recommit")
+        inv, lost = w.check_head()
+        fails = [{"what": "invented attribution", "op": "reset+recommit", "detail": inv[:3], "known": False}] if inv else []
+        return {"idx": idx, "trace": w.trace + [("reset_shift",)], "failures": fails, "log": sim.log if fails else None}
+    finally:
+        shutil.rmtree(sim.base, ignore_errors=True)
+
+
 def witness_k1(base):
     """AI edit, git stash (content gone, checkpoint entry stays), amend of the commit that added the file's lines"""
     sim = Sim(base, "k1")
@@ -206,6 +231,7 @@ def initial_tie(ctx):
 def run(ctx):
     n = 150 if ctx.tier == "quick" else 3000
     res = C.parallel_map(scenario, [(ctx.scratch, ctx.seed, i, {}) for i in range(n)])
+    res += C.parallel_map(scenario_reset_shift, [(ctx.scratch, ctx.seed, i, {}) for i in range(max(20, n // 5))])
     violations, obligations, known = [], [], []
     ops_hist, distinct, hits = {}, set(), 0
     for r_ in res:
